@@ -434,6 +434,8 @@ class Translator:
         self.bound = [{}]
         self.old = False
         self.nq = 0
+        self.qdepth = 0
+        self.qvars = []
 
     def clause(self, text):
         v = self.expr(text)
@@ -585,6 +587,12 @@ class Translator:
             return self.ev(n.body)
         if z3.is_false(sc):
             return self.ev(n.orelse)
+        if not any(_contains(c, q) for q in self.qvars):
+            k = self.ctx.known(c)       # decided by the path condition: keep only the live branch
+            if k is True:
+                return self.ev(n.body)
+            if k is False:
+                return self.ev(n.orelse)
         a = self.ev(n.body)
         b = self.ev(n.orelse)
         if z3.is_bool(a) or z3.is_bool(b) or isinstance(a, bool) or isinstance(b, bool):
@@ -618,10 +626,14 @@ class Translator:
         k = z3.BitVec(name, 64)
         kt = TV(k, False)
         self.bound.append({g.target.id: kt})
+        self.qdepth += 1
+        self.qvars.append(k)
         try:
             body = self.as_bool(self.ev(gen.elt))
         finally:
             self.bound.pop()
+            self.qdepth -= 1
+            self.qvars.pop()
         rng = z3.And(tv_cmp('<=', lo, kt), tv_cmp('<', kt, hi))
         # literal small ranges are expanded (no quantifier for the solver to instantiate)
         lo_s, hi_s = shrink(lo), shrink(hi)
